@@ -56,14 +56,18 @@ impl TestRunnerAdapter {
         thread::spawn(move || {
             let mut last_checked_pc = None;
             while thread_is_connected.load(Ordering::Relaxed) {
-                let state = *thread_state.lock().unwrap();
-                match state {
+                #[cfg(feature = "verif")]
+                crate::verif::sched_point("M1", -1, -1);
+
+                // The state stays locked while a single instruction is checked for breakpoints and executed: whoever wants
+                // to declare the machine stopped (see `pause`) has to wait until the machine really is between two instructions
+                let mut state = thread_state.lock().unwrap();
+                match *state {
                     MachineRunningState::Launching | MachineRunningState::Stopped(_) => {
+                        drop(state);
                         thread::sleep(Duration::from_millis(50));
                     }
                     MachineRunningState::Running => {
-                        #[cfg(feature = "verif")]
-                        crate::verif::sched_point("M1", -1, -1);
                         {
                             let runner = thread_runner.read().unwrap();
                             let pc =
@@ -75,7 +79,6 @@ impl TestRunnerAdapter {
                                     .iter()
                                     .any(|bp| bp.range.start <= pc && bp.range.end > pc)
                                 {
-                                    let mut state = thread_state.lock().unwrap();
                                     let old = *state;
                                     let new = MachineRunningState::Stopped(pc);
                                     *state = new;
@@ -87,11 +90,12 @@ impl TestRunnerAdapter {
                             }
                         }
 
+                        let result = thread_runner.write().unwrap().execute_instruction();
+                        drop(state);
                         #[cfg(feature = "verif")]
                         crate::verif::sched_point("M2", -1, -1);
                         {
-                            let mut runner = thread_runner.write().unwrap();
-                            match runner.execute_instruction() {
+                            match result {
                                 Ok(result) => {
                                     // Give rest of core a chance to do something
                                     thread::sleep(Duration::from_millis(0));
@@ -232,12 +236,21 @@ impl MachineAdapter for TestRunnerAdapter {
     }
 
     fn pause(&mut self) -> MosResult<()> {
+        // While the state is locked the machine is between two instructions, so the program counter that is
+        // read here is where it is going to stay
+        let mut state = self.state.lock().unwrap();
+        if *state == MachineRunningState::Launching {
+            // Nothing is running yet
+            return Ok(());
+        }
         let pc = self.runner.read().unwrap().cpu().get_program_counter();
         #[cfg(feature = "verif")]
         crate::verif::sched_point("P1", pc as i64, -1);
-        self.update_state(MachineRunningState::Stopped(ProgramCounter::new(
-            pc as usize,
-        )))?;
+        let old = *state;
+        let new = MachineRunningState::Stopped(ProgramCounter::new(pc as usize));
+        *state = new;
+        self.event_sender
+            .send(MachineEvent::RunningStateChanged { old, new })?;
         Ok(())
     }
 
